@@ -164,6 +164,12 @@ def run(ctx):
         c06.rule_tokens(ctx, F, tokmodel.get(F), prefix="C17", only_weight=True)
     except Unrecognised as e:
         ctx.unrecognised(e.rule if e.rule.startswith("C17") else "C17." + e.rule.split(".", 1)[-1], e.msg, e.fn, e.line)
+    # maximal run merging, pass order, leftovers: the run-length passes matched against the run-merging template
+    try:
+        from rules import runpass
+        runpass.run_rules(ctx, F, "C17")
+    except Unrecognised as e:
+        ctx.unrecognised("C17.run-merging", e.msg, e.fn, e.line)
     if ctx.tier == "thorough":
         from sa import xref
         from rules import selftest
